@@ -3,7 +3,7 @@ TIES = {
     "Reader": dict(
         doc="Functions of the decoding path that Model/Codec.lean follows by hand.",
         shapes=["rscp_readHeader", "rscp_truncatePadding", "rscp_read", "rscp_readMessage", "rscp_Read",
-                "rscp_DataType_length", "rscp_DataType_newEmpty", "rscp_DataType_IsADataType", "rscp_dereferencePtr"],
+                "rscp_DataType_length", "rscp_DataType_newEmpty", "rscp_DataType_IsADataType", "rscp_dereferencePtr", "rscp_var_newEmptyMap"],
         leaves=["readHeader_badMagic", "readHeader_badCtrl", "readHeader_badVersion", "readHeader_crcFlag",
                 "readHeader_frameSize", "readMessage_tooLong", "readMessage_lenMismatch", "truncatePadding_loop",
                 "truncatePadding_trailing", "Read_badChunk", "Read_complete", "Read_badCrc"]),
@@ -16,7 +16,7 @@ TIES = {
     "Validate": dict(
         doc="Request validation as Model/Codec.lean follows it.",
         shapes=["rscp_Message_validate", "rscp_Message_size", "rscp_messagesWideSize", "rscp_validateRequest",
-                "rscp_validateRequests", "rscp_DataType_isValidValue", "rscp_DataType_length", "rscp_Tag_isRequest"],
+                "rscp_validateRequests", "rscp_DataType_isValidValue", "rscp_DataType_length", "rscp_Tag_isRequest", "rscp_var_validateMap"],
         leaves=["validate_tooLong", "validateRequests_tooLong", "size_isVariable", "isRequest"]),
     "Client": dict(
         doc="The client state machine (client.go) as Model/Client.lean, Model/Receive.lean and Model/Session.lean follow it.",
@@ -40,7 +40,7 @@ TIES = {
         shapes=["rscp_Tag_String", "rscp_TagString", "rscp_TagValues", "rscp_Tag_IsATag", "rscp_Tag_DataType", "rscp_Tag_MarshalJSON",
                 "rscp_Tag_UnmarshalJSON", "rscp_Tag_isRequest", "rscp_Tag_isResponse", "rscp_DataType_String", "rscp_DataTypeString",
                 "rscp_DataType_IsADataType", "rscp_DataType_MarshalJSON", "rscp_DataType_UnmarshalJSON", "rscp_DataType_length",
-                "rscp_DataType_newEmpty", "rscp_DataType_new", "rscp_DataType_isValidValue"],
+                "rscp_DataType_newEmpty", "rscp_DataType_new", "rscp_DataType_isValidValue", "rscp_var_newEmptyMap", "rscp_var_newMap", "rscp_var_validateMap"],
         leaves=["isRequest", "isResponse"]),
     "Log": dict(
         doc="Every Log call of package rscp (function:method:format,args) and the rendering of messages.",
@@ -58,7 +58,7 @@ TIES = {
         doc="The request notations of the e3dc command as Model/JsonIn.lean follows them.",
         shapes=["e3dc_unmarshalJSONRequests", "e3dc_unmarshalJSONRequest", "e3dc_unmarshalJSONValue", "e3dc_isJSONEmpty", "e3dc_isJSONArray",
                 "e3dc_isJSONString", "e3dc_isJSONNumber", "e3dc_isJSONDataType", "rscp_Message_UnmarshalJSON", "rscp_Message_UnmarshalJSONValue",
-                "rscp_DataType_newNumber", "rscp_DataType_new", "rscp_Tag_UnmarshalJSON", "rscp_DataType_UnmarshalJSON", "rscp_Message_validate"]),
+                "rscp_DataType_newNumber", "rscp_DataType_new", "rscp_var_newMap", "rscp_Tag_UnmarshalJSON", "rscp_DataType_UnmarshalJSON", "rscp_Message_validate"]),
     "Cli": dict(
         doc="main/run/flag handling of the e3dc command as Model/Cli.lean follows them.",
         shapes=["e3dc_main", "e3dc_run", "e3dc_parseFlags", "e3dc_checkFlags", "e3dc_printUsage", "e3dc_printVersion"]),
